@@ -17,7 +17,7 @@ import traceback
 
 from . import term as tm
 from .repo import Repo
-from .models_bio import BioModels
+from .models_moclo import MocloModels
 from .models import ASSUMPTIONS
 from .symex import Executor
 from .contract import verify_function
@@ -58,7 +58,7 @@ class Ctx(object):
         self.inlined = set()
 
     def executor(self):
-        return Executor(self.repo, BioModels(), self.contracts)
+        return Executor(self.repo, MocloModels(), self.contracts)
 
     def verify(self, keys):
         """A-obligations for the listed (file, qual) functions under contract"""
